@@ -241,7 +241,7 @@ pub fn gen_call(rng: &mut Rng, to: Fmt, n: usize, out: &mut Out) -> CallSpec {
 	if from == Fmt::Toml && n != 1 {
 		from = *rng.pick(&STREAM_FMTS);
 	}
-	let mut supply = random_supply(rng);
+	let mut supply = if rng.chance(1, 4) { Supply::Slice } else { random_supply(rng) };
 	if n == 0 && from == Fmt::Yaml {
 		// K2 (zero-document YAML slice is an error): a recorded C02 finding.
 		supply = Supply::Reader(vec![]);
@@ -273,7 +273,7 @@ pub fn gen_call(rng: &mut Rng, to: Fmt, n: usize, out: &mut Out) -> CallSpec {
 	let texts: Vec<Vec<u8>> = docs.iter().map(|d| d.1.clone()).collect();
 	let mut input = if fixed_join { join_docs(from, &texts, &mut Rng(1), 1) } else { join_docs(from, &texts, rng, sep_style) };
 	// Generator self-check with the source crate's own reader.
-	if from != Fmt::Toml {
+	if from != Fmt::Toml && !docs.is_empty() {
 		match read_docs(from, &input) {
 			Ok(vs) if vs.len() == docs.len() && vs.iter().zip(&docs).all(|(a, b)| a == &b.0) => {}
 			_ => {
@@ -674,7 +674,7 @@ pub fn gen_tcalls(rng: &mut Rng) -> Vec<TCall> {
 		if from == Fmt::Toml && n != 1 {
 			from = *rng.pick(&STREAM_FMTS);
 		}
-		let mut supply = random_supply(rng);
+		let mut supply = if rng.chance(1, 4) { Supply::Slice } else { random_supply(rng) };
 		if n == 0 && from == Fmt::Yaml {
 			supply = Supply::Reader(vec![]);
 		}
